@@ -270,6 +270,12 @@ pub fn build_doc_ex(p: &Value) -> Result<(Document, Vec<Vec<bool>>), String> {
     }
     if !frefs.is_empty() {
         doc.set_form_manager(fm);
+        // fields filled after the document was assembled (Document::fill_field: /V and regenerated appearances)
+        for f in p["fields"].as_array().unwrap() {
+            if !f["fill"].is_null() {
+                doc.fill_field(&cps_text(&f["name"]), cps_text(&f["fill"])).map_err(|e| format!("fill_field: {e}"))?;
+            }
+        }
     }
     if let Some(tree) = struct_tree_of(p)? {
         doc.set_struct_tree(tree);
